@@ -29,7 +29,7 @@ func init() {
 		straddle, straddleT := 1, 1
 		if op == "And" || op == "Or" {
 			// quick: neither operand straddles zero (the mixed case is the union of up to four such calls); thorough: unrestricted
-			k, straddle, straddleT = 6, 0, 1
+			k, straddle, straddleT = 10, 0, 1
 		}
 		p.Harnesses = append(p.Harnesses, HSpec{Prop: "C06", Pkg: "lib/interval", Dir: "c06", Func: "VH_C06_" + op, NeedBig: true, BigW: bw, Cfg: merge,
 			Params: map[string]int{"K": k, "S": 8, "STRADDLE": straddle}, ParamsT: map[string]int{"K": kt, "S": 16, "STRADDLE": straddleT}, Reach: reach})
